@@ -1,10 +1,11 @@
+import os
 subs=[("idle","stepIdle",True),("begin","stepBegin",False),("commit","stepCommit",False),("abort","stepAbort",False),("after","stepAfter",True),("use","stepUse",False),("sess","stepSess",False),("close","stepClose",False),("exp","stepExp",False)]
 pcname={"idle":".idle","after":".after"}
 out='''/-
   Lungo.Proofs.ConcNamed — the positions recorded in `done` / `before` are the end positions of
   actual commit records (links the real-time bookkeeping to `commitLog`).  Generated mechanically.
 -/
-import Lungo.Proofs.ConcLogAll
+import Lungo.Proofs.ConcLog2
 namespace Lungo.Conc
 
 /-- `p = (tid, end position)` of some record of the commit log -/
@@ -67,23 +68,6 @@ theorem ninv_{name} {{s s' : State}} {{a : ActorId}} {{c : Choice}} (bnd : Bnd s
       (try log2_simp_at hp); grind [Named.mono, Named.last])
 '''
 out+='''
-theorem ninv_reachable {n : Nat} {s : State} (h : Reachable n s) : Ninv s := by
-  induction h with
-  | init => exact ninv_init n
-  | step hr hs ih =>
-    have bd := (inv_reachable hr).2.bnd
-    have lv := linv_reachable hr
-    rcases step_cases hs with ⟨hp, h'⟩ | h' | h' | h' | ⟨hp, h'⟩ | h' | h' | h' | h'
-    · exact ninv_idle bd lv ih hp h'
-    · exact ninv_begin bd lv ih h'
-    · exact ninv_commit bd lv ih h'
-    · exact ninv_abort bd lv ih h'
-    · exact ninv_after bd lv ih hp h'
-    · exact ninv_use bd lv ih h'
-    · exact ninv_sess bd lv ih h'
-    · exact ninv_close bd lv ih h'
-    · exact ninv_exp bd lv ih h'
-
 end Lungo.Conc
 '''
-open('/root/wt/a4/lean/Lungo/Proofs/ConcNamed.lean','w').write(out)
+open(os.path.join(os.path.dirname(os.path.abspath(__file__)),'..','Lungo','Proofs')+'/ConcNamed.lean','w').write(out)
